@@ -107,6 +107,81 @@ func jsonSkel(p interface{}) string {
 	return "?"
 }
 
+// randLiteral: the source text of a scalar as a sequence of one-character strings; the specification classifies it by
+// its syntax (JsonDoc!LitClass), the generator only aims: integers around the int64 bounds, decimals of 1..20 digits
+// with and without exponent, strings with every escape and non-ASCII characters; !supported adds damaged literals
+func randLiteral(r *rand.Rand, supported bool) []string {
+	digits := func(n int, first bool) string {
+		b := make([]byte, n)
+		for i := range b {
+			b[i] = byte('0' + r.Intn(10))
+			if i == 0 && first && n > 1 && b[i] == '0' {
+				b[i] = byte('1' + r.Intn(9))
+			}
+		}
+		return string(b)
+	}
+	var lit string
+	switch r.Intn(3) {
+	case 0: // integer
+		switch r.Intn(4) {
+		case 0:
+			lit = []string{"9223372036854775807", "-9223372036854775808", "9223372036854775806", "-9223372036854775807", "0", "-0", "-1", "1000000000000000000"}[r.Intn(8)]
+		case 1:
+			lit = digits(17+r.Intn(3), true)
+		default:
+			lit = digits(1+r.Intn(10), true)
+		}
+		if r.Intn(3) == 0 && lit[0] != '-' {
+			lit = "-" + lit
+		}
+	case 1: // decimal
+		ip := digits(1+r.Intn(12), true)
+		if r.Intn(4) == 0 {
+			ip = "0"
+		}
+		lit = ip + "." + digits(1+r.Intn(18-minInt(len(ip), 12)), false)
+		if r.Intn(3) == 0 {
+			lit += []string{"e", "E"}[r.Intn(2)] + []string{"", "+", "-"}[r.Intn(3)] + digits(1+r.Intn(2), false)
+		}
+		if r.Intn(3) == 0 {
+			lit = "-" + lit
+		}
+	default: // string
+		parts := []string{"a", "b", "Z", " ", "0", "/", "'", "é", "世", "ß", "{", "]", ",", ":", `\"`, `\\`, `\n`, `\t`, `\r`, `\b`, `\f`,
+			`\u00e9`, `\u4e16`, `\u0041`, `\u0000`, `\u001F`, `\uFFFD`, `\u00E9`}
+		lit = `"`
+		for k := r.Intn(9); k > 0; k-- {
+			lit += parts[r.Intn(len(parts))]
+		}
+		lit += `"`
+	}
+	if !supported && r.Intn(3) == 0 {
+		// damage: Go-style numbers, foreign escapes, missing quote ...
+		switch r.Intn(6) {
+		case 0:
+			lit = "0" + lit
+		case 1:
+			lit = strings.Replace(lit, ".", "", 1)
+		case 2:
+			lit = strings.Replace(lit, `\`, `\/`, 1)
+		case 3:
+			if len(lit) > 1 {
+				lit = lit[:len(lit)-1]
+			}
+		case 4:
+			lit = strings.Replace(lit, `\u`, `\ud8`, 1)
+		default:
+			lit += "e5"
+		}
+	}
+	var cs []string
+	for _, c := range lit {
+		cs = append(cs, string(c))
+	}
+	return cs
+}
+
 func jsonObserve(txt string) J {
 	o := J{"pok": false, "perr": false, "jok": false, "agree": false, "skel": "", "panic": false, "perrtext": ""}
 	o["again"] = true
@@ -175,6 +250,9 @@ func jsondocMain(mode string, a args) {
 		gen = func(d int, supported bool) interface{} {
 			x := r.Intn(10)
 			if d >= maxd || x < 4 {
+				if r.Intn(2) == 0 {
+					return []interface{}{"c", randLiteral(r, supported)}
+				}
 				if supported || r.Intn(12) > 0 {
 					return []interface{}{"s", 1 + r.Intn(14)}
 				}
